@@ -2,4 +2,5 @@
 EXTENDS TaskPool
 OP == <<1, 2, -1, 3, -1, -1>>
 OP2 == <<1, -1, 2, 3, -1, -1, -1>>
+OP3 == <<1, 2, 3, -1, -1>>
 ====
